@@ -22,6 +22,7 @@ def check(ctx, prog):
     process.rule_marker_parent(ctx, prog)
     engine.rule_wakeup(ctx, prog)
     model.rule_optional_zero(ctx, prog)
+    model.rule_constants(ctx, prog, want=("events", "status", "axes"))
     branching.check_value_heuristics(ctx, prog)  # scope: R-BRANCH-EVENTS (a decision whose moved bounds are not announced leaves watchers asleep)
     propagators.rule_enforce_entail(ctx, prog)
     engine.rule_queue_writers(ctx, prog, thorough=thorough)
